@@ -32,6 +32,10 @@ func (a PeerAddress) AddTo(m *stun.Message) error {
 
 // GetFrom decodes XOR-PEER-ADDRESS from message.
 func (a *PeerAddress) GetFrom(m *stun.Message) error {
+	if err := checkXORAddressSize(m, stun.AttrXORPeerAddress); err != nil {
+		return err
+	}
+
 	return (*stun.XORMappedAddress)(a).GetFromAs(m, stun.AttrXORPeerAddress)
 }
 
